@@ -230,7 +230,7 @@ def check(run: Run):
     run.cov["traces_validated_against_impl"] += hist_cases
     total += hist_obs
     run.cov["evaluations"] = total
-    run.cov["distinct_nontrivial"] = len(recs) - sum(1 for r in recs if r["act"] in ("Frames", "GetTranslation", "StopOps") and len(r["seq"]) < 3)
+    run.cov["distinct_nontrivial"] = hist_cases + len(recs) - sum(1 for r in recs if r["act"] in ("Frames", "GetTranslation", "StopOps") and len(r["seq"]) < 3)
     run.cov["exhaustive"] = skipped == 0
     run.cov["rule"] = (
         "every (input, operation) transition of the exhaustive GeneticCode model is one case; each case is executed on every real "
